@@ -1,6 +1,6 @@
 import inspect
 import math
-from dataclasses import dataclass
+from dataclasses import dataclass, replace
 from itertools import count
 from types import CodeType
 
@@ -62,6 +62,7 @@ class Candidate:
     specificity: tuple
     tiebreak: int
     types: tuple = None
+    signature: object = None
 
     def sort_key(self):
         return self.priority, sum(self.specificity), self.tiebreak
@@ -79,7 +80,12 @@ class Candidate:
                 typeorder(t1, t2) for t1, t2 in zip(self.types, other.types)
             ]
             if all(o is Order.SAME for o in orders):
-                return self.tiebreak > other.tiebreak
+                # The tiebreak only orders successive registrations of the
+                # very same signature
+                return (
+                    self.signature == other.signature
+                    and self.tiebreak > other.tiebreak
+                )
             return all(o is Order.LESS or o is Order.SAME for o in orders)
         elif self.specificity != other.specificity:
             return all(
@@ -190,6 +196,7 @@ class MultiTypeMap(dict):
                 specificity=tuple(specificities.get(c, ())),
                 tiebreak=self.tiebreaks.get(c, 0),
                 types=declared_types(c),
+                signature=replace(self.signatures[c], tiebreak=0),
             )
             for c in candidates
         ]
